@@ -116,10 +116,13 @@ class Run:
     node = self.info.node
     self.fr = Frame(self.info, closure=closure or {})
     self.params = {}
-    args = args or {}
+    args = dict(args or {})
+    alias =args.pop("$alias", {}) if isinstance(args, dict) else {}
     for a in node.args.args:
       if a.arg in args:
         v = args[a.arg]
+      elif a.arg in alias and alias[a.arg] in self.params:
+        v = self.params[alias[a.arg]]  # the launch site passes the same array for both formals
       else:
         if a.annotation is None:
           raise Unsupported(f"parameter {a.arg} of {key} has no annotation")
